@@ -740,6 +740,9 @@ fn execute_c10(run: &Run, opts: &ExecOpts) -> Outcome {
         }
         if !v.earlier.is_empty() {
             cx.out.stats.fire("earlier_revisions_compiled_first");
+            if v.earlier.iter().any(|r| r.iter().any(|(_, c)| c == ABSENT_IN_EARLIER_REVISION)) {
+                cx.out.stats.fire("file_absent_while_earlier_revisions_were_compiled");
+            }
         }
         results.push(fr);
     }
